@@ -1,0 +1,8 @@
+//go:build verif
+
+package binder
+
+//@ func NewViperBinder
+//@ property C15
+//@ assigns nothing
+//@ ensures [binder-created] result != nil && fresh(result)
